@@ -75,19 +75,21 @@ Build(f, s, i, j) ==
              RECURSIVE Down(_)
              Down(k) == IF k >= 0 /\ fs < f[k] THEN Down(k - 1) ELSE k + 1
              k == Down(j - 1)
-             f2 == [m \in DOMAIN f |-> IF m < k \/ m > j THEN f[m] ELSE IF m = k THEN fs ELSE f[m - 1]]
-             s2 == [m \in DOMAIN s |-> IF m < k \/ m > j THEN s[m] ELSE IF m = k THEN i ELSE s[m - 1]]
+             (* TLCEval: TLC builds functions lazily; without forcing them here every access would re-evaluate the *)
+             (* chain of all earlier insertions                                                                   *)
+             f2 == TLCEval([m \in DOMAIN f |-> IF m < k \/ m > j THEN f[m] ELSE IF m = k THEN fs ELSE f[m - 1]])
+             s2 == TLCEval([m \in DOMAIN s |-> IF m < k \/ m > j THEN s[m] ELSE IF m = k THEN i ELSE s[m - 1]])
          IN Build(f2, s2, i + 2, j + 1)
 
 Reconst(m) ==
     LET lv == Leaves(m.s, 0)
-        f1 == [i \in 0..T |-> IF i < NCHAR THEN (m.f[lv[i + 1]] + 1) \div 2 ELSE m.f[i]]
-        s1 == [i \in 0..(T - 1) |-> IF i < NCHAR THEN m.s[lv[i + 1]] ELSE m.s[i]]
+        f1 == TLCEval([i \in 0..T |-> IF i < NCHAR THEN (m.f[lv[i + 1]] + 1) \div 2 ELSE m.f[i]])
+        s1 == TLCEval([i \in 0..(T - 1) |-> IF i < NCHAR THEN m.s[lv[i + 1]] ELSE m.s[i]])
         b  == Build(f1, s1, 0, NCHAR)
         (* connect parents *)
-        p1 == [i \in 0..(T + NCHAR - 1) |->
+        p1 == TLCEval([i \in 0..(T + NCHAR - 1) |->
                   IF i = R THEN 0
-                  ELSE LET par == CHOOSE q \in 0..(T - 1) : b.s[q] = i \/ (b.s[q] < T /\ b.s[q] + 1 = i) IN par]
+                  ELSE LET par == CHOOSE q \in 0..(T - 1) : b.s[q] = i \/ (b.s[q] < T /\ b.s[q] + 1 = i) IN par])
     IN [f |-> b.f, s |-> b.s, p |-> p1]
 
 (* update: increment the frequencies on the path from the symbol's leaf to the root, exchanging nodes to keep the     *)
